@@ -133,9 +133,11 @@ class WatermarkPoolSink(PoolSink):
       return
 
     do_close = False
-    # This sink is already shutting down
+    # This sink is already shutting down, the connection is not going to be
+    # reused: close it instead of just forgetting it.
     if self.state == ChannelState.Closed:
       self._current_size -= 1
+      do_close = True
     # One of the underlying sinks failed, shut down
     elif sink.state == ChannelState.Closed:
       self._current_size -= 1
